@@ -200,5 +200,10 @@ class TaskStopper:
             return
         n = self.notifications
         self.notifications += 1
+        # ... and it is a progress display: it reads what every job set reports
+        for js in self.handle.get_jobsets():
+            js.get_name()
+            js.get_active_job_name()
+            js.get_percent_done()
         if self.stop_at is not None and n == self.stop_at and not self.fired:
             self._fire()
